@@ -92,6 +92,9 @@ class ArbitrageAgent(HighFrequencyAgent):
         spots: List[Market] = index.get_components()
         if not index.is_running or not index.is_all_markets_running():
             return orders
+        if not all(self.is_market_accessible(market_id=m.market_id) for m in spots):
+            # the basket cannot be hedged without access to every component
+            return orders
         market_index: float = index.get_index()
         market_price: float = index.get_market_price()
 
